@@ -163,7 +163,7 @@ def _same_tbl(model, impl):
 # --- default values as regenerated obligations (Generated/Defaults.lean <- harness/translate_defaults.py; stream defaults[...])
 import defaults_stream  # noqa: E402
 from common import all_pre_build as pre_build  # noqa: E402,F401,F811  (runs EVERY translate_*.py)
-LEAN_MODULES += ["PyomaVerif.Props.WiringDefaults"]
+LEAN_MODULES += ["PyomaVerif.Props.WiringDefaultsC09"]
 THEOREMS += ["PV.WiringDefaults.C09_hc_defaults"]
 
 
